@@ -400,6 +400,30 @@ func ruleNatsPlumbing(c *Ctx) {
 	for _, f := range scan {
 		connCalls = append(connCalls, callsIn(f)...)
 	}
+	// conditional: the instruction lies behind some branch of its function (or, in a helper, the helper's call in Connect does)
+	var conditional func(in ssa.Instruction, d int) bool
+	conditional = func(in ssa.Instruction, d int) bool {
+		b := in.Block()
+		for _, blk := range b.Parent().Blocks {
+			if blockIf(blk) == nil || blk == b {
+				continue
+			}
+			for _, sx := range blk.Succs {
+				if edgeDominates(blk, sx, b) {
+					return true
+				}
+			}
+		}
+		if f := in.Parent(); f != conn && d < 2 {
+			for _, call := range callsIn(conn) {
+				if call.Common().StaticCallee() == f {
+					return conditional(call, d+1)
+				}
+			}
+		}
+		return false
+	}
+	condClosed := false
 	for _, call := range connCalls {
 		if f := calleeFunc(call.Common()); f != nil {
 			switch f.Name() {
@@ -408,10 +432,16 @@ func ruleNatsPlumbing(c *Ctx) {
 			case "ClosedHandler":
 				if mc, ok := stripConv(call.Common().Args[0]).(*ssa.MakeClosure); ok && strings.Contains(mc.Fn.Name(), "onClose") {
 					hasClosed = true
+					if conditional(call, 0) {
+						condClosed = true
+					}
 				}
 			}
 		}
 	}
+	c.inst(1)
+	c.check(!condClosed, fnName(conn), "the closed handler is registered with the connection unconditionally", p.Pos(conn.Pos()), "ClosedHandler(c.onClose) lies behind no branch",
+		"the closed handler is registered only under a condition decided at Connect (e.g. whether a handler was set already): a handler set afterwards — the gateway sets it after Connect — is never told about the loss of the connection, the gateway keeps serving from a cache it cannot keep current")
 	for _, fn := range p.Repo {
 		allInstrs(fn, func(in ssa.Instruction) {
 			if g, ok := in.(*ssa.Go); ok {
@@ -564,6 +594,28 @@ func ruleStop(c *Ctx) {
 			// stopping=true and the final block under s.mu
 			if li := indexKind(path, "lock"); li < 0 || li > indexKind(path, "stopping=true") {
 				bad = "stopping flag set outside the service mutex: " + tr.FmtPath(path)
+			}
+			// the cause is reported in the critical section that also returns the service to "not running":
+			// whoever reacts to the stop channel with Start must find stop == nil and stopping == false
+			if si, ei := indexKind(path, "send"), indexKind(path, "stopping=false"); si >= 0 && ei > si {
+				depth := 0
+				for _, e := range path[:si] {
+					switch e.Kind {
+					case "lock":
+						depth++
+					case "unlock":
+						depth--
+					}
+				}
+				cut := false
+				for _, e := range path[si:ei] {
+					if e.Kind == "lock" || e.Kind == "unlock" {
+						cut = true
+					}
+				}
+				if depth < 1 || cut {
+					bad = "the cause is put on the stop channel outside the critical section that clears stop/stopping: a Start issued in reaction to the stop finds the service still marked running and does nothing — the gateway stays stopped: " + tr.FmtPath(path)
+				}
 			}
 		}
 		if full == 0 {
